@@ -242,7 +242,7 @@ class P21Check(_CheckBase):
                 pass
         return {"property": self.prop, "schema": it["name"], "schema_def": it["sd"],
                 "model": {"header": pm.default_header(core.rng(seed, self.prop, tag, "hdr", j), it["name"], rich=False), "insts": insts or []},
-                "render": {"p_ws": r.choice([0, 0, 0.1, 0.3]), "p_cmt_between": r.choice([0, 0, 0.2]), "p_cmt_in": 0, "sections": "hif", "spell": r.choice([None] * 6 + [{"id_pad": 4}, {"id_pad": 9, "plus_int": True}, {"plus_int": True}, {"zero_pad": True}, {"zero_pad": True, "id_pad": 3}]), "eol": r.choice(["\n"] * 7 + ["", " ", "\r\n"]),
+                "render": {"p_ws": r.choice([0, 0, 0.1, 0.3]), "p_cmt_between": r.choice([0, 0, 0.2]), "p_cmt_in": 0, "sections": "hif", "spell": r.choice([None] * 6 + [{"id_pad": 4}, {"id_pad": 9, "plus_int": True}, {"id_pad": 25}, {"plus_int": True}, {"zero_pad": True}, {"zero_pad": True, "id_pad": 3}]), "eol": r.choice(["\n"] * 7 + ["", " ", "\r\n"]),
                            "seed": core.derive(seed, self.prop, tag, "render", j)}}
 
     @staticmethod
